@@ -37,6 +37,18 @@ CLAIMED = {
    text="For every layout the observable snapshot is computed on the real library under every registration order of the defining files and compared; TLC proves order independence of the repaired model (RepairedEqualsR under all orders).",
    note="Schedule effect = per-file analysis order (atomicity is C09's subject); <= 3/4 definers, all permutations.",
    technique="TLA+ case table over all permutations + replay, snapshot comparison"),
+ "C09": dict(level=MC, ref="DESIGN.md section 4 C09, Appendix C",
+   text="Conc.tla refines the atomic AnalyzeFn of Index.tla to individual DashMap operations; TLC checks Serializable / NoDanglingC / MirrorC over ALL interleavings of two analyses of different files, all key->shard placements and 1800 scenarios (1.2M states); TLC-simulated behaviours (thread-id sequences) are replayed on real threads through the instrumented DashMap's cooperative scheduler and the quiescent real index is compared with both sequential orders executed on the real library and with the model's final state.",
+   note="2 threads, 2 names, 2 shards; schedule points = acquisitions on the four shared maps; instrumented copy of dashmap 6.1.0 (hooks off = upstream behaviour).",
+   technique="TLA+ refinement at DashMap-operation grain (TLC exhaustive) + scheduled real-thread replay of TLC behaviours"),
+ "C10": dict(level=MC, ref="DESIGN.md section 4 C10",
+   text="Conc.tla with scan worker (no cleanup) and editor (cleanup) on the SAME file: TLC checks RestoreAfterChange over all interleavings; simulated behaviours and both coarse orders are replayed on real threads under the scheduler, then every text is sent as one further change; the final state is compared with the single analysis of the buffer; the known scan-after-notification defect is matched only when the model predicts the exact observed state.",
+   note="5 disk texts x 5 buffer texts; the scan's visit is the guarded verif_analyze_file_fresh hook.",
+   technique="TLA+ interleaving model (TLC exhaustive) + scheduled real-thread replay"),
+ "C12": dict(level=MC, ref="DESIGN.md section 4 C12, Appendix C",
+   text="Lock events of every public library entry point are traced through the instrumented DashMap under natural placement and all-keys-in-one-shard; a held-lock re-entrancy involving a writer on the same map is a violation; the observed nesting templates are model-checked (Locks.tla, reader-preferring RwLock, all schedules and placements) for deadlock; ImportWalk.tla proves termination (<>Done under weak fairness) of the memoised import recursion and scanner fixpoint on all graphs over 3 modules, and all 1024 graphs are run on the real code under a watchdog with the result compared to reachability; seeded random schedules of a notification against two request streams on real threads.",
+   note="Handlers of the binary crate are covered through the library entry points they call; watchdog 600 s; a crash (stack overflow) of the harness is reported as a violation with the culprit case.",
+   technique="lock-trace template extraction + TLA+ lock model (TLC) + TLA+ liveness (ImportWalk) + scheduled real threads"),
  "C16": dict(level=MC, ref="DESIGN.md section 4 C16",
    text="compute_fixture_cycles is transcribed step by step into TLA+ (explicit-stack DFS, root order) and TLC evaluates it on every dependency graph of the table; the per-definition reference graph (layer R) decides soundness and completeness of every reported cycle and the scope rule; every (graph, registration order) is replayed on the real library with 3 additional fresh databases for run-to-run stability; the model must predict the implementation's exact output.",
    note="<= 3 fixture names over 4 files, all parameter lists, all registration orders of defining files; scope universe: 5 scopes x dependency defined at up to 4 places.",
